@@ -57,6 +57,16 @@ def regenerate_guards(pid):
         if text != old: target.write_text(text)
         info["changed_since_last_run"] = text != old
         return "ok", "regenerated" if text != old else "unchanged", info
+    if pid == "C20":
+        import py2lean_neg
+        info = {"module": "LK.Gen.NegC20", "obligations": "LK/Proofs/NegC20.lean", "sites": ["data/relationships.py:MatrixRelationshipSet.sample_negatives / _check_negatives / _check_negatives_and_resample → sampleT"]}
+        target = LEAN_DIR / "LK" / "Generated" / "NegC20.lean"
+        try: text = py2lean_neg.translate(os.path.dirname(lenskit.__file__))
+        except py2lean_neg.Unsupported as e: return "untranslatable", str(e), info
+        old = target.read_text() if target.exists() else ""
+        if text != old: target.write_text(text)
+        info["changed_since_last_run"] = text != old
+        return "ok", "regenerated" if text != old else "unchanged", info
     if pid == "C17":
         import py2lean_arrow
         info = {"module": "LK.Gen.ArrowC17", "obligations": "LK/Proofs/ArrowC17.lean", "sites": ["data/builder.py:_expand_and_align_list_array → expandAlignT"]}
@@ -197,7 +207,7 @@ def main():
     quiet_lenskit()
     mod = importlib.import_module(f"lkv.props.{a.pid.lower()}")
     seed = int(os.environ.get("VERIF_SEED", "0")); ginfo = None
-    if a.pid in guard_pids() or a.pid in ("C04", "C12", "C15", "C17"):
+    if a.pid in guard_pids() or a.pid in ("C04", "C12", "C15", "C17", "C20"):
         gstatus, gmsg, ginfo = regenerate_guards(a.pid)
         if gstatus == "untranslatable":
             sys.exit(obligation_broken(a.pid, "untranslatable: " + gmsg, mod, a.tier, seed, a.replay, ginfo))
@@ -206,7 +216,7 @@ def main():
         if status in ("untranslatable", "obligation-broken"):
             sys.exit(search_chunking(a.pid, f"{status}: {msg}"))
         if status == "build-error":
-            if ginfo is not None and any(f"{k}{a.pid}" in msg for k in ("Guards", "Wiring", "Scatter", "Np", "Imp", "Holdout", "Arrow", "Cand", "SaveTrace", "BatchTrace")):
+            if ginfo is not None and any(f"{k}{a.pid}" in msg for k in ("Guards", "Wiring", "Scatter", "Np", "Imp", "Holdout", "Arrow", "Cand", "SaveTrace", "BatchTrace", "Neg")):
                 sys.exit(obligation_broken(a.pid, "obligation-broken: " + msg.replace("\n", " | ")[:900], mod, a.tier, seed, a.replay, ginfo))
             print(f"machinery error: lake build failed\n{msg}", file=sys.stderr); sys.exit(2)
     else:
@@ -214,7 +224,7 @@ def main():
         r = subprocess.run(["lake", "build", f"LK.Props.{a.pid}", "lkdriver"], cwd=LEAN_DIR, capture_output=True, text=True, timeout=1800)
         if r.returncode != 0:
             bad = [l for l in (r.stdout + r.stderr).splitlines() if "error" in l][:8]
-            if ginfo is not None and any(any(f"{k}{a.pid}" in l for k in ("Guards", "Wiring", "Scatter", "Np", "Imp", "Holdout", "Arrow", "Cand", "SaveTrace", "BatchTrace")) for l in bad):
+            if ginfo is not None and any(any(f"{k}{a.pid}" in l for k in ("Guards", "Wiring", "Scatter", "Np", "Imp", "Holdout", "Arrow", "Cand", "SaveTrace", "BatchTrace", "Neg")) for l in bad):
                 sys.exit(obligation_broken(a.pid, "obligation-broken: " + " | ".join(bad)[:900], mod, a.tier, seed, a.replay, ginfo))
             print("machinery error: lake build failed\n" + "\n".join(bad[:6]), file=sys.stderr); sys.exit(2)
     try:
